@@ -44,6 +44,14 @@ class Responder:
 
     # ScriptTransport world API
     async def on_connect(self) -> None:
+        rr = self.plan.get("rc_refused")
+        if rr and self.n_open >= 1:
+            self.refused_since = getattr(self, "refused_since", self.loop.time())
+            if rr["for"] is None or self.loop.time() < self.refused_since + rr["for"]:
+                await asyncio.sleep(0.001)
+                self.rec.rec("connect_error", error="ConnectionRefusedError")
+                self.n_refused = getattr(self, "n_refused", 0) + 1
+                raise ConnectionRefusedError(111, "Connection refused")
         await asyncio.sleep(0.002)
 
     def on_open(self, tr: Any) -> int:
@@ -168,6 +176,12 @@ class C05(Check):
         plan["wait_at"] = rng.choice([None, None, None, 0.2, 1.0])
         plan["cancel"] = {"caller": rng.randrange(n), "at": round(rng.uniform(0.0, 3.0), 4)} if rng.random() < 0.4 else None
         plan["net_seed"] = rng.getrandbits(30)
+        # the ECU is unreachable when the reconnecting caller tries (connects refused at once) - for a while or for good; the
+        # caller gives reconnect() a budget, fails when it is used up and must then release the client (own stream of draws)
+        rng3 = rng_for(seed, "C05-refused", index)
+        plan["rc_refused"] = None
+        if plan["reconnect_at"] is not None and plan.get("stack") is None and rng3.random() < 0.3:
+            plan["rc_refused"] = {"for": rng3.choice([0.4, 5.0, None]), "timeout": rng3.choice([1.0, 3.0])}
         return plan
 
     def simplify(self, plan: dict[str, Any]) -> Any:
@@ -356,7 +370,10 @@ class C05(Check):
                 async def rc() -> None:
                     await asyncio.sleep(plan["reconnect_at"])
                     try:
-                        await ecu.reconnect()
+                        if plan.get("rc_refused"):
+                            await ecu.reconnect(plan["rc_refused"]["timeout"])
+                        else:
+                            await ecu.reconnect()
                     except Exception as e:  # noqa: BLE001
                         rec.rec("rc_failed", error=type(e).__name__)
 
@@ -492,6 +509,12 @@ class C05(Check):
                 # a negative response naming the caller's own service is a genuine reply to any request of that service
                 # (no sequence numbers in UDS): not evidence of mis-attribution.  One naming ANOTHER service is.
                 own_negative = len(r["pdu"]) == 3 and r["pdu"][0] == 0x7F and r["pdu"][1] == sid_
+                if own_negative and r["pdu"][2] == 0x78:
+                    # responsePending announces a reply, it is not one: handing it to the caller is neither "the reply to its own
+                    # request" nor "an error"
+                    violation(res, "C05/attribution", "C05/attribution:response-pending-returned-as-the-reply",
+                              f"caller {r['caller']} asked for {r['did']:#06x} and was handed the interim {r['pdu'].hex()} as its result")
+                    break
                 if r["pdu"] != want and not own_negative:
                     violation(res, "C05/attribution", "C05/attribution:foreign-reply-returned",
                               f"caller {r['caller']} asked for {r['did']:#06x} and was handed {r['pdu'].hex()} (expected {want.hex()})")
@@ -527,6 +550,8 @@ class C05(Check):
                 bump(res["faults"], "cancel")
         if plan["reconnect_at"] is not None:
             bump(res["faults"], "concurrent_reconnect")
+        if getattr(holder.get("resp"), "n_refused", 0):
+            bump(res["faults"], "reconnect_attempts_refused", holder["resp"].n_refused)
         if plan["wait_at"] is not None:
             bump(res["faults"], "concurrent_wait_for_ecu")
         return res
